@@ -23,7 +23,7 @@ ASSUMPTIONS = ['Reference objective / analytic gradient in mc/refmodel/lsml_ref.
                'priors rebuilt independently (mc/refmodel/priors.py).',
                'tol is restricted to >= 1e-4 so that floating-point resolution cannot stop the step-size search before the '
                'gradient criterion does; a stop with n_iter_ < max_iter is judged with 1.001 x tol.']
-BOUNDS = {'quick': dict(K=8, datasets=['S2', 'S3u', 'S5']), 'thorough': dict(K=25, datasets=['S2', 'S2u', 'S3', 'S3u', 'S5', 'S8', 'R'])}
+BOUNDS = {'quick': dict(K=8, datasets=['S2', 'S3u', 'S5']), 'thorough': dict(K=25, datasets=list(data.THOROUGH))}
 
 
 def V(site, clause, msg, triggers=(), **detail):
